@@ -87,8 +87,55 @@ def gen_case_f(rng):
     return shape, defx, xs, flat, qs
 
 
+def normal_range(v):
+    """finite, and not so small that the standard model (relative error u per operation) could fail"""
+    a = abs(Fr(v))
+    return a == 0 or (Fr(2) ** -1000 < a < Fr(2) ** 1000)
+
+
+def gen_case_extreme(rng):
+    """data and axis of extreme but independent magnitudes such that every intermediate of the
+    reference evaluation order dy=(y2-y1), dx=(x2-x1), m=dy/dx, t=(x-x1), p=m*t, p+y1 stays in the
+    normal range (checked exactly): the proved bound then applies"""
+    for _ in range(50):
+        n = rng.choice([2, 3, 5])
+        ex = rng.choice([-250, -120, -30, 0, 40, 150, 280])
+        ey = rng.choice([-250, -120, -30, 0, 40, 150, 280])
+        xs = sorted({rng.uniform(1, 10) * rng.choice([-1, 1]) for _ in range(n * 3)})[:n]
+        xs = [x * 10.0 ** ex for x in xs]
+        if len(xs) < n or any(not a < b for a, b in zip(xs, xs[1:])):
+            continue
+        flat = [rng.uniform(-10, 10) * 10.0 ** ey for _ in range(n)]
+        qs = []
+        for a, b in zip(xs, xs[1:]):
+            qs += [a + (b - a) * rng.random(), a, b]
+        qs = [q for q in qs if xs[0] <= q <= xs[-1]]
+        ok = True
+        for q in qs:
+            i = lin_bracket(xs, q)
+            x1, x2, y1, y2 = Fr(xs[i]), Fr(xs[i + 1]), Fr(flat[i]), Fr(flat[i + 1])
+            dy, dx, t = y2 - y1, x2 - x1, Fr(q) - x1
+            m = dy / dx
+            vals = [dy, dx, m, t, m * t, m * t + y1, y1, y2]
+            # differences must not cancel catastrophically into the subnormal range
+            if not all(normal_range(v) for v in vals) or (dy != 0 and abs(dy) < Fr(2) ** -900):
+                ok = False
+                break
+        span = xs[-1] - xs[0]
+        if ok and math.isfinite(span) and span > 0 and math.isfinite((n - 1) / span):
+            return [n], False, xs, flat, qs
+    return None
+
+
 def generate(rng, tier):
     cases = []
+    for _ in range(80 if tier == "quick" else 2000):
+        g = gen_case_extreme(rng)
+        if g:
+            shape, defx, xs, flat, qs = g
+            c = build_line(rng, "F", shape, defx, xs, flat, qs, False)
+            c["meta"]["extreme"] = True
+            cases.append(c)
     nq = 500 if tier == "quick" else 12000
     nf = 300 if tier == "quick" else 6000
     for _ in range(nq):
